@@ -138,6 +138,7 @@ type Result struct {
 	Reached        map[string]bool
 	Funcs          map[string][2]int // function -> [blocks covered, blocks total]
 	Samples        []map[string]interface{}
+	SampleTraces   [][]InputRec
 	Disagreements  []string
 	Wall           float64
 	EngineErrors   []string
@@ -442,6 +443,12 @@ func (w *worker) runPath(trail []Decision, fixed int) *Run {
 				s[in.Name] = fmtVal(in.term.eval(m, map[*Term]uint64{}), in.Bits)
 			}
 			res.Samples = append(res.Samples, s)
+			var tr []InputRec
+			memo := map[*Term]uint64{}
+			for _, in := range r.inputs {
+				tr = append(tr, InputRec{Name: in.Name, Bits: in.Bits, Val: in.term.eval(m, memo)})
+			}
+			res.SampleTraces = append(res.SampleTraces, tr)
 		}
 	}
 	return r
@@ -900,7 +907,16 @@ func ReplayFile(prog *ssa.Program, fn *ssa.Function, cfg Config, path string) *R
 		fixed[in.Name] = in.Val
 	}
 	w.fixedInputs = fixed
-	w.runPath(cloneTrail(v.Trail), len(v.Trail))
+	// with concrete inputs the data decisions (branch, concretise, map key) fold away;
+	// only the control decisions (choices, schedules, selects) are replayed
+	var ctl []Decision
+	for _, d := range v.Trail {
+		switch d.Kind {
+		case "choice", "sched", "select":
+			ctl = append(ctl, d)
+		}
+	}
+	w.runPath(ctl, len(ctl))
 	ex.res.Paths = 1
 	ex.res.Wall = time.Since(ex.t0).Seconds()
 	ex.res.Solver.merge(w.pf.stats)
